@@ -382,7 +382,7 @@ SACK_ADAPTERS = ("std::iter::Iterator::skip", "std::iter::Iterator::take", "std:
                  "std::iter::Iterator::skip_while", "std::iter::Iterator::take_while", "std::iter::Iterator::chain", "std::iter::IntoIterator::into_iter", "std::iter::Iterator::by_ref")
 
 
-@rule("C04.6", ["C04", "C06", "C01", "C02"], ["E4", "E2", "E7"], "receiver and sender agree on what a selective-ACK bit means",
+@rule("C04.6", ["C04", "C06", "C01", "C02", "C05"], ["E4", "E2", "E7"], "receiver and sender agree on what a selective-ACK bit means",
       "Producer (OutOfOrderQueue::selective_ack): bit i is set iff slot filled_front + 1 + i of the reassembly queue is occupied - the range starts at filled_front + 1 (the slot after the first hole), is "
       "enumerated without any shifting adapter, the closure yields the unshifted index exactly for non-default slots, and SelectiveAck::new sets bit idx to true. Consumer (Segments::remove_up_to_ack): bit i "
       "is applied to the segment with sequence number ack_nr + 2 + i - sack_start = ack_nr + 2, the segment iterator is advanced by (sack_start - first_seq_nr) when that is >= 0 and the bit iterator by its "
@@ -538,6 +538,16 @@ def c04_6(R):
                 if tt.kind == "param" and tt.root[1] == 3 and not tt.fields:
                     bit = True
         val_ok = s.rv.kind == "use" and s.rv.ops[0].kind == "const" and s.rv.ops[0].scalar == 1
+        # "newly" sacked means not delivered before: the counters feeding newly_sacked_{segment_count,byte_count} (they lift the
+        # single-segment-after-RTO gate, C05.3) move only for a segment that was not yet marked
+        first_time = any(d == "field:Segment.is_delivered=false" for c, truth, d, *_ in controlling(cb, s.bb))
+        counters = [x for x in cb.stmts() if any(isinstance(p_, list) and p_ and p_[0] == "f" and p_[1] == "upvar" and "newly_sacked" in str(p_[2]) for p_ in x.place.proj)]
+        cnt_ok = all(any(d == "field:Segment.is_delivered=false" for c, truth, d, *_ in controlling(cb, x.bb)) and any(c.kind in ("var", "multi", "field") and truth and c.trace.kind == "param" and c.trace.root[1] == 3 for c, truth, d, *_ in controlling(cb, x.bb)) for x in counters)
+        if not (first_time and cnt_ok and counters):
+            R.fail([ru.name, "newly-sacked-counted-for-already-delivered", "mark-under-!delivered=%s counters=%d guarded=%s" % (first_time, len(counters), cnt_ok)],
+                   "a segment that was already marked delivered is counted as newly SACKed again when the same bit is repeated: an ACK that acknowledges nothing new lifts the single-segment-after-RTO gate and restarts the retransmission timer", where=s.where(), instance="newly-sacked=>first-time")
+        else:
+            R.ok("newly-sacked=>first-time", cb.name, "marking and newly_sacked_* counters only under !is_delivered && bit")
         if bit and val_ok:
             R.ok("sacked=>bit-set", cb.name, "is_delivered = true only under is_sacked")
         else:
